@@ -1,6 +1,5 @@
 /-
-FGA instance of `Proofs/ListUsersStrat.lean`: the only ghost marker written by a leaf of the FGA rules is
-`filter-rel`, so for a world whose Check-side system is stratified no answer carries `excl-sub-cut`, and the
+FGA instance of `Proofs/ListUsersStrat.lean`: no leaf of the FGA rules writes a ghost marker, so for a world whose Check-side system is stratified no answer carries `excl-sub-cut`, and the
 exactness theorems hold with the hypothesis "no ghost note" restricted to the notes that are defects.
 -/
 import OpenFGAVerif.Proofs.ListUsersFga
@@ -12,7 +11,7 @@ namespace OpenFGAVerif.ListUsers
 open OpenFGAVerif.Vocab OpenFGAVerif.CheckV1 OpenFGAVerif.BoolSys
 
 theorem directL_noteLeaf {w : World} {f : Filter} {o r s : String}
-    (h : NoteLeaf (N := Node) s (directL w f o r)) : s = "filter-rel" := by
+    (h : NoteLeaf (N := Node) s (directL w f o r)) : False := by
   unfold directL at h
   cases h with
   | bag hmem hn =>
@@ -24,16 +23,7 @@ theorem directL_noteLeaf {w : World} {f : Filter} {o r s : String}
       simp only at hn
       split at hn
       · cases hn
-      · split at hn
-        · split at hn
-          · cases hn
-          · cases hn with
-            | bag hmem' hn' =>
-              simp only [List.mem_cons, List.not_mem_nil, or_false] at hmem'
-              rcases hmem' with rfl | rfl
-              · cases hn'
-              · cases hn'; rfl
-        · cases hn
+      · split at hn <;> cases hn
 
 theorem ttuL_noteLeaf {w : World} {o ts cr s : String}
     (h : NoteLeaf (N := Node) (K := String) s (ttuL w o ts cr)) : False := by
@@ -44,11 +34,11 @@ theorem ttuL_noteLeaf {w : World} {o ts cr s : String}
     cases c <;> cases hn
 
 theorem rewriteL_noteLeaf (w : World) (f : Filter) (o r s : String) :
-    ∀ rw, NoteLeaf (N := Node) s (rewriteL w f o r rw) → s = "filter-rel" := by
+    ∀ rw, NoteLeaf (N := Node) s (rewriteL w f o r rw) → False := by
   apply RefRules.Rewrite.ind
   · intro h; simp only [rewriteL] at h; exact directL_noteLeaf h
   · intro r' h; simp only [rewriteL] at h; cases h
-  · intro ts cr h; simp only [rewriteL] at h; exact (ttuL_noteLeaf h).elim
+  · intro ts cr h; simp only [rewriteL] at h; exact ttuL_noteLeaf h
   · intro cs ih h
     simp only [rewriteL] at h
     cases h with
@@ -67,8 +57,9 @@ theorem rewriteL_noteLeaf (w : World) (f : Filter) (o r s : String) :
     | diffB hn => exact ihb hn
     | diffS hn => exact iht hn
 
+/-- the FGA rules write no ghost marker at all -/
 theorem luRule_noteLeaf {w : World} {f : Filter} {n : Node} {s : String}
-    (h : NoteLeaf s (luRule w f n)) : s = "filter-rel" := by
+    (h : NoteLeaf s (luRule w f n)) : False := by
   obtain ⟨o, r⟩ := n
   unfold luRule at h
   cases h with
@@ -85,6 +76,6 @@ theorem answer_no_sub_cut_fga (w : World) (f : Filter) (limit : Nat) (u : String
     (hs : Stratified (specSys (luSys w f) u cw) rk) (root : Node) (a : Answer String)
     (h : ListUsersRel (luSys w f) limit root a) : "excl-sub-cut" ∉ a.notes :=
   answer_no_sub_cut (luSys w f) limit u cw rk hs
-    (fun n hl => by have := luRule_noteLeaf hl; exact absurd this (by decide)) root a h
+    (fun _ hl => luRule_noteLeaf hl) root a h
 
 end OpenFGAVerif.ListUsers
